@@ -205,6 +205,9 @@ def h2(ctx: Ctx):
                    where(fi, node), sample="':' not in host")
 
 
+DROPPING = {"strip", "rstrip", "lstrip", "replace", "removeprefix", "removesuffix", "translate", "expandtabs"}
+
+
 def h4(ctx: Ctx):
     """A host that is not an IP literal is encoded whole: what is lower-cased / IDNA-encoded, validated and returned is the
     argument itself, never a part of it (cutting the text at a '%' while probing for a zone id and then encoding the cut
@@ -223,11 +226,15 @@ def h4(ctx: Ctx):
             continue
         cut = [t for t in walk(v) if t[0] in ("sub", "item") and any(x == hostp for x in walk(t[1]))
                and (t[0] == "item" or t[2][0] == "slice" or t[2][0] == "const")]
+        # ... or what is left of it after characters were taken away (a trailing dot, a prefix): 'example.com.' is a different,
+        # canonical spelling, not a variant to be folded
+        cut += [t for t in walk(v) if t[0] == "call" and t[1][0] == "attr" and t[1][2] in DROPPING and any(x == hostp for x in walk(t[1][1]))]
         seen.setdefault(id(node), [node, v, []])[2].append(not cut)
     for node, v, oks in seen.values():
         ctx.instance(rule)
         ctx.ob(rule, ENC, f"return {show(v)[:70]}", all(oks),
-               "a registered name is built from a part of the argument only: the rest of the text is dropped without an error",
+               "a registered name is built from a part of the argument only (cut out of it, or with characters stripped / replaced): the "
+               "rest of the text is dropped without an error and an already canonical host is rewritten",
                where(fi, node), sample="derived from the whole `host` argument")
 
 
